@@ -52,8 +52,10 @@ ANCHORS = {
         "neuroml/utils.py": ["add_all_to_document", "append_to_element"],
     },
     "C06": {
-        "neuroml/loaders.py": ["_read_neuroml2", "read_neuroml2_file", "read_neuroml2_string"],
-        "neuroml/utils.py": ["add_all_to_document", "append_to_element"],
+        "neuroml/loaders.py": ["_read_neuroml2", "read_neuroml2_file", "read_neuroml2_string", "NeuroMLLoader.*",
+                               "NeuroMLHdf5Loader.*"],
+        "neuroml/utils.py": ["add_all_to_document"],
+        "neuroml/hdf5/NeuroMLHdf5Parser.py": ["NeuroMLHdf5Parser.parse", "NeuroMLHdf5Parser.get_nml_doc"],
     },
     "C07": {
         "neuroml/loaders.py": ["*"],
